@@ -23,6 +23,11 @@ pub struct Duo {
     pub alias_c: Vec<(u16, String)>,   // aliases the client has bound on this connection
     pub alias_s: Vec<(u16, String)>,
     pub pending_close: bool,
+    pub mps_c2s: Option<u32>,          // Maximum Packet Size the server announced (limit for the client's sends)
+    pub mps_s2c: Option<u32>,
+    pub auto_map_c: bool,
+    pub auto_map_s: bool,
+    pub used_tags: Vec<bool>,
 }
 
 fn payload_of(tag: usize) -> Vec<u8> {
@@ -160,35 +165,69 @@ impl Duo {
             if id == 0 { return }
         }
         self.next_tag += 1;
-        let tag = self.next_tag;
+        let limit = if from_client { self.mps_c2s } else { self.mps_s2c };
+        let auto_map = if from_client { self.auto_map_c } else { self.auto_map_s };
         let topic = *rng.pick(&["a", "t/1", "t/22"]);
         let q = match qos { 0 => Qos::AtMostOnce, 1 => Qos::AtLeastOnce, _ => Qos::ExactlyOnce };
-        let p: Option<Packet> = if ver == 4 {
-            let mut b = v3_1_1::GenericPublish::<Pid>::builder().topic_name(topic).unwrap().qos(q).payload(payload_of(tag));
-            if qos > 0 { b = b.packet_id(id as Pid) }
-            b.build().ok().map(|x| x.into())
-        } else {
-            let aliases = if from_client { &mut self.alias_c } else { &mut self.alias_s };
-            let mut props: Vec<Property> = Vec::new();
-            let mut t = topic.to_string();
-            if tam > 0 && rng.chance(1, 2) {
-                let a = rng.range(1, tam.min(2) as u64) as u16;
-                if let Some((_, bound)) = aliases.iter().find(|(x, _)| *x == a).cloned() {
-                    if bound == topic && rng.chance(2, 3) {
-                        t = String::new(); // alias only: resolves to the topic bound earlier on this connection
-                    } else {
-                        aliases.retain(|(x, _)| *x != a);
-                        aliases.push((a, topic.to_string()));
-                    }
-                } else {
-                    aliases.push((a, topic.to_string()));
+        // the message identity is its payload length: a fresh length per message; with a packet-size limit
+        // in force, lengths that bring the packet within a few bytes of the limit are preferred
+        let mut use_alias: Option<(u16, bool)> = None;   // (alias, topic omitted)
+        if ver == 5 && !auto_map && tam > 0 && rng.chance(1, 2) {
+            let aliases = if from_client { &self.alias_c } else { &self.alias_s };
+            let a = rng.range(1, tam.min(2) as u64) as u16;
+            let omit = match aliases.iter().find(|(x, _)| *x == a) { Some((_, bound)) => bound == topic && rng.chance(2, 3), None => false };
+            use_alias = Some((a, omit));
+        }
+        let build = |tag: usize| -> Option<Packet> {
+            if ver == 4 {
+                let mut b = v3_1_1::GenericPublish::<Pid>::builder().topic_name(topic).unwrap().qos(q).payload(payload_of(tag));
+                if qos > 0 { b = b.packet_id(id as Pid) }
+                b.build().ok().map(|x| x.into())
+            } else {
+                let mut props: Vec<Property> = Vec::new();
+                let mut t = topic.to_string();
+                if let Some((a, omit)) = use_alias {
+                    if omit { t = String::new() }
+                    props.push(mqtt::packet::TopicAlias::new(a).unwrap().into());
                 }
-                props.push(mqtt::packet::TopicAlias::new(a).unwrap().into());
+                let mut b = v5_0::GenericPublish::<Pid>::builder().topic_name(t).unwrap().qos(q).payload(payload_of(tag)).props(props);
+                if qos > 0 { b = b.packet_id(id as Pid) }
+                b.build().ok().map(|x| x.into())
             }
-            let mut b = v5_0::GenericPublish::<Pid>::builder().topic_name(t).unwrap().qos(q).payload(payload_of(tag)).props(props);
-            if qos > 0 { b = b.packet_id(id as Pid) }
-            b.build().ok().map(|x| x.into())
         };
+        let mut chosen: Option<(usize, Packet)> = None;
+        for attempt in 0..12 {
+            let tag = match limit {
+                Some(l) if attempt < 6 && rng.chance(2, 3) => {
+                    // size(tag) = size(1) + tag - 1 for these small packets
+                    let base = build(1).map(|p| p.size()).unwrap_or(12);
+                    let want = (l as usize).saturating_sub(rng.below(5) as usize);
+                    if want > base { 1 + want - base } else { 1 + rng.below(20) as usize }
+                }
+                _ => 1 + rng.below(110) as usize,
+            };
+            if tag == 0 || tag >= self.used_tags.len() || self.used_tags[tag] { continue }
+            if let Some(p) = build(tag) {
+                if let Some(l) = limit { if p.size() > l as usize { continue } }
+                chosen = Some((tag, p));
+                break;
+            }
+        }
+        let p = match chosen {
+            Some((tag, p)) => { self.used_tags[tag] = true; Some(p) }
+            None => {
+                // no usable length: give the identifier back
+                if qos > 0 { if from_client { self.apply_c(Op::Release(id)); } else { self.apply_s(Op::Release(id)); } }
+                None
+            }
+        };
+        if let (Some(_), Some((a, omit))) = (&p, use_alias) {
+            if !omit {
+                let aliases = if from_client { &mut self.alias_c } else { &mut self.alias_s };
+                aliases.retain(|(x, _)| *x != a);
+                aliases.push((a, topic.to_string()));
+            }
+        }
         if let Some(p) = p {
             if from_client { self.apply_c(Op::Send(p)); } else { self.apply_s(Op::Send(p)); }
         }
@@ -228,7 +267,7 @@ pub fn duo_case(case_seed: u64, rng: &mut Rng, stats: &mut CaseStats) -> (String
         for ps in [&mut props_c, &mut props_s] {
             if rng.chance(3, 4) { ps.push(mqtt::packet::ReceiveMaximum::new(*rng.pick(&[1u16, 1, 2, 3])).unwrap().into()) }
             if rng.chance(1, 2) { ps.push(mqtt::packet::TopicAliasMaximum::new(*rng.pick(&[0u16, 1, 2])).unwrap().into()) }
-            if rng.chance(1, 4) { ps.push(mqtt::packet::MaximumPacketSize::new(*rng.pick(&[300u32, 1000])).unwrap().into()) }
+            if rng.chance(1, 3) { ps.push(mqtt::packet::MaximumPacketSize::new(*rng.pick(&[32u32, 40, 48, 64, 300, 1000])).unwrap().into()) }
         }
         props_c.push(mqtt::packet::SessionExpiryInterval::new(1000).unwrap().into());
     }
@@ -239,7 +278,16 @@ pub fn duo_case(case_seed: u64, rng: &mut Rng, stats: &mut CaseStats) -> (String
         auto_c: rng.chance(2, 3), auto_s: rng.chance(2, 3), auto_ping_s: rng.chance(1, 2), had_session: false,
         connack_props: props_s, connect_props: props_c, losses: 0, content_bad: 0, next_tag: 0, st: CaseStats::new(),
         alias_c: Vec::new(), alias_s: Vec::new(), pending_close: false,
+        mps_c2s: None, mps_s2c: None, auto_map_c: ver == 5 && rng.chance(1, 3), auto_map_s: ver == 5 && rng.chance(1, 3),
+        used_tags: vec![false; 256],
     };
+    for (ps, slot) in [(&d.connack_props, 0), (&d.connect_props, 1)] {
+        for p in ps.iter() {
+            if let Property::MaximumPacketSize(m) = p { if slot == 0 { d.mps_c2s = Some(m.val()) } else { d.mps_s2c = Some(m.val()) } }
+        }
+    }
+    if d.auto_map_c { d.apply_c(Op::SetFlag(9, true)); }
+    if d.auto_map_s { d.apply_s(Op::SetFlag(9, true)); }
     d.c.out.insert(0, 1);
     d.s.out.insert(0, 1);
     if d.auto_c { d.apply_c(Op::SetFlag(7, true)); }
